@@ -8,7 +8,7 @@ rc=0
 $ROOT/target/release/fpmc C08 "$TIER"; r=$?; [ $r -gt $rc ] && rc=$r
 for feat in rkyv rkyv,packed; do
   d=$ROOT/target/feat-$(echo $feat | tr , -)
-  ( cd $ROOT/engine && CARGO_TARGET_DIR=$d cargo build --release --offline --features $feat ) >$d.build.log 2>&1 || { echo "MACHINERY-FAILURE: build with --features $feat failed" >&2; tail -20 $d.build.log >&2; exit 2; }
+  ( cd $ROOT/engine && CARGO_TARGET_DIR=$d cargo build --release --offline $(if [ -z "${VERIF_FEATFLAGS:-}" ]; then echo "--features $feat"; else echo "${VERIF_FEATFLAGS},$feat"; fi) ) >$d.build.log 2>&1 || { echo "MACHINERY-FAILURE: build with --features $feat failed" >&2; tail -20 $d.build.log >&2; exit 2; }
   $d/release/fpmc C08R "$TIER" | sed 's/property=C08R/property=C08/'; r=${PIPESTATUS[0]}; [ $r -gt $rc ] && rc=$r
   mv "$OUT/evidence/C08R.json" "$OUT/evidence/.C08R-$(echo $feat | tr , -).json"
 done
